@@ -283,7 +283,7 @@ func clipS(s string) string {
 func init() {
 	core.Register(&core.Check{
 		ID: "C12", Level: "model_checking",
-		Rule:        "harnesses of 2-3 goroutines sharing one IPAConfig, the package tables and the big.Int pool, operations chosen to collide on the shared objects: (1) ALL 2-subsets (with repetition) and a family of 3-subsets of 8 short operations (fr decoders/printers through the pool, transcripts, element codec): unbounded DPOR over every interleaving and every sync.Pool answer, pooled objects poisoned on Put; (2) pairs of a heavy call (Commit, MultiScalar, BatchNormalize, CheckIPAProof, CreateIPAProof, CreateMultiProof+Check) with a short one and heavy-heavy pairs: DPOR under a time cap (cap reported); oracle: every call's output equals its output when executed alone, no deadlock state, shared fingerprint unchanged; (3) race pass: all pairs of the same bodies free-running in the -race build under GOMAXPROCS 1,2,4,16 (first-use phase on a fresh configuration, then every pair; 3 repetitions in thorough) — any report is a violation; a state is a decision point of the explored schedule tree; non-trivial = executions with at least one scheduling point where two goroutines address the same shim object",
+		Rule:        "harnesses of 2-3 goroutines sharing one IPAConfig, the package tables and the big.Int pool, operations chosen to collide on the shared objects: (1) ALL 2-subsets (with repetition) and a family of 3-subsets of 8 short operations (fr decoders/printers through the pool, transcripts, element codec): unbounded DPOR over every interleaving and every sync.Pool answer, pooled objects poisoned on Put; (2) pairs of a heavy call (NewPrecomputedWeights, Commit, MultiScalar, BatchNormalize, CheckIPAProof, CreateIPAProof in and out of the domain, CreateMultiProof+Check with 2, 5 and 17 openings, also under NumCPU 3,4,16) with a short one and heavy-heavy pairs: DPOR under a time cap (cap reported); oracle: every call's output equals its output when executed alone, no deadlock state, shared fingerprint unchanged; (3) race pass: all pairs of the same bodies free-running in the -race build under GOMAXPROCS 1,2,4,16 (first-use phase on a fresh configuration, then every pair; 3 repetitions in thorough) — any report is a violation; a state is a decision point of the explored schedule tree; non-trivial = executions with at least one scheduling point where two goroutines address the same shim object",
 		Assume:      []string{"scheduling points = visible synchronisation operations; sequential consistency; data-race freedom is discharged by the separate free-running -race pass (a cooperative scheduler would blind the detector)", "heavy pairs are explored under a wall-clock cap, reported in caps_hit"},
 		UnitTimeout: 20 * time.Minute,
 		Units:       c12Units,
